@@ -236,6 +236,8 @@ fn ref_pad44(v: &[u8; 32]) -> String {
 
 struct Ctx {
     distinct: BTreeSet<Vec<u8>>,
+    /// failures grouped by (path, broken clause); only the minimal input of a group is reported
+    bad: crate::util::MinCases,
 }
 
 fn check_id(rep: &mut Report, cx: &mut Ctx, bytes: [u8; 32]) {
@@ -248,8 +250,8 @@ fn check_id(rep: &mut Report, cx: &mut Ctx, bytes: [u8; 32]) {
     let replay = json!({"kind": "id", "bytes": hexs});
     let r = mcx::catch(|| id_roundtrips::<ProbeId>(&bytes).and_then(|()| id_roundtrips::<BaseId>(&bytes)));
     match r {
-        Err(p) => rep.violation(format!("id {hexs}: panic"), format!("panic: {p}"), replay),
-        Ok(Err((what, detail))) => rep.violation(format!("id {hexs}: {what}"), detail, replay),
+        Err(p) => cx.bad.offer("id: panic", &bytes, || format!("id {hexs}"), || format!("panic: {p}"), || replay.clone()),
+        Ok(Err((what, detail))) => cx.bad.offer(&format!("id: {what}"), &bytes, || format!("id {hexs}"), || detail, || replay.clone()),
         Ok(Ok(())) => rep.outcome("id_roundtrips", 1),
     }
 }
@@ -328,7 +330,7 @@ fn check_text(rep: &mut Report, cx: &mut Ctx, text: &str) {
     ];
     for (path, r) in results {
         match r {
-            Err(p) => rep.violation(format!("text {shown:?} via {path}: panic"), format!("panic: {p}"), replay.clone()),
+            Err(p) => cx.bad.offer(&format!("text via {path}: panic"), text.as_bytes(), || format!("text {shown:?}"), || format!("panic: {p}"), || replay.clone()),
             Ok(None) => {
                 rep.outcome(if reference.is_some() { "text_valid_rejected" } else { "text_invalid_rejected" }, 1);
             }
@@ -341,18 +343,22 @@ fn check_text(rep: &mut Report, cx: &mut Ctx, text: &str) {
                         let id = BaseId::from_bytes(got);
                         let d = id.to_string();
                         if d.trim_start_matches('1') != ref_encode_minimal(&v) || d.parse::<BaseId>().ok() != Some(id) {
-                            rep.violation(format!("text {shown:?} via {path}: display of result not canonical"), format!("display={d:?}"), replay.clone());
+                            cx.bad.offer(&format!("text via {path}: display of result not canonical"), text.as_bytes(), || format!("text {shown:?}"), || format!("display={d:?}"), || replay.clone());
                         }
                     }
-                    Some(v) => rep.violation(
-                        format!("text {shown:?} via {path}: wrong id"),
-                        format!("parsed to {} but the text encodes {}", mcx::hex(&got), mcx::hex(&v)),
-                        replay.clone(),
+                    Some(v) => cx.bad.offer(
+                        &format!("text via {path}: wrong id"),
+                        text.as_bytes(),
+                        || format!("text {shown:?}"),
+                        || format!("parsed to {} but the text encodes {}", mcx::hex(&got), mcx::hex(&v)),
+                        || replay.clone(),
                     ),
-                    None => rep.violation(
-                        format!("text {shown:?} via {path}: accepted text that encodes no id"),
-                        format!("parsed to {} but the text has a symbol outside base58 or a value ≥ 2^256", mcx::hex(&got)),
-                        replay.clone(),
+                    None => cx.bad.offer(
+                        &format!("text via {path}: accepted text that encodes no id"),
+                        text.as_bytes(),
+                        || format!("text {shown:?}"),
+                        || format!("parsed to {} but the text has a symbol outside base58 or a value ≥ 2^256", mcx::hex(&got)),
+                        || replay.clone(),
                     ),
                 }
             }
@@ -363,7 +369,7 @@ fn check_text(rep: &mut Report, cx: &mut Ctx, text: &str) {
 pub fn run(args: &Args) {
     let mut rep = Report::new(args, Level::Exploration);
     mcx::quiet_panics();
-    let mut cx = Ctx { distinct: BTreeSet::new() };
+    let mut cx = Ctx { distinct: BTreeSet::new(), bad: Default::default() };
     if let Some(r) = crate::util::load_replay(args) {
         match r.get("kind").and_then(|k| k.as_str()) {
             Some("id") => {
@@ -374,6 +380,7 @@ pub fn run(args: &Args) {
             Some("text") => check_text(&mut rep, &mut cx, r["text"].as_str().unwrap_or("")),
             _ => mcx::machinery_error("C46 replay: unknown kind"),
         }
+        std::mem::take(&mut cx.bad).flush(&mut rep);
         rep.set("distinct_nontrivial", cx.distinct.len() as u64);
         rep.set("rule", "replay of one recorded case");
         rep.set("exhaustive", false);
@@ -404,12 +411,12 @@ pub fn run(args: &Args) {
     let boundary = boundary_texts();
     let boundary_set: BTreeSet<&str> = boundary.iter().map(|s| s.as_str()).collect();
     use mcx::rayon::prelude::*;
-    let chunks: Vec<(Report, usize, u64)> = (0..=syms.len())
+    let chunks: Vec<(Report, usize, u64, crate::util::MinCases)> = (0..=syms.len())
         .into_par_iter()
         .map(|ci| {
             mcx::quiet_panics();
             let mut w = rep.worker();
-            let mut wcx = Ctx { distinct: BTreeSet::new() };
+            let mut wcx = Ctx { distinct: BTreeSet::new(), bad: Default::default() };
             let mut n = 0u64;
             if ci == syms.len() {
                 for t in &boundary_set {
@@ -423,21 +430,23 @@ pub fn run(args: &Args) {
                 short_texts_from(&syms, ci, max_syms, &mut |t| {
                     check_text(&mut w, &mut wcx, t);
                     n += 1;
-                    if ci % 23 == 5 && n == 777 {
+                    if ci % 23 == 5 && n == 130 {
                         w.sample(json!({"kind": "text", "text": t, "parsed": t.parse::<BaseId>().ok().map(|i| mcx::hex(i.as_bytes()))}));
                     }
                 });
             }
-            (w, wcx.distinct.len(), n)
+            (w, wcx.distinct.len(), n, wcx.bad)
         })
         .collect();
     let mut distinct_texts_nontrivial = 0u64;
     let mut n_texts = 0u64;
-    for (w, d, n) in chunks {
+    for (w, d, n, b) in chunks {
+        cx.bad.merge(b);
         rep.absorb(w);
         distinct_texts_nontrivial += d as u64;
         n_texts += n;
     }
+    std::mem::take(&mut cx.bad).flush(&mut rep);
     rep.set("distinct_ids", id_set.len() as u64);
     rep.set("distinct_texts", n_texts);
     rep.set("max_symbols", max_syms as u64);
